@@ -195,11 +195,16 @@ class RectGrid(Set):
         # Non-degenerate axes
         self.__nondegen_byaxis = tuple(len(v) > 1 for v in self.coord_vectors)
 
-        # Uniformity, setting True in degenerate axes
+        # Uniformity, setting True in degenerate axes. The strides may differ
+        # by 1e-5 relative to the stride plus the rounding error of the
+        # coordinates (not by an absolute amount, which would make every
+        # grid with tiny strides uniform).
         diffs = [np.diff(v) for v in self.coord_vectors]
+        eps = np.finfo(float).eps
         self.__is_uniform_byaxis = tuple(
-            (diff.size == 0) or np.allclose(diff, diff[0])
-            for diff in diffs)
+            (diff.size == 0) or
+            np.allclose(diff, diff[0], atol=4 * eps * np.max(np.abs(v)))
+            for diff, v in zip(diffs, self.coord_vectors))
 
     # Attributes
     @property
